@@ -88,6 +88,27 @@ def run(tier):
             bad = [r for ctl, r in parses if not (ctl == OK and r[0] == "enum" and r[1] == ERRV)]
             C.ob("C18/reject-unknown", t, not bad and parses,
                  "an unknown keyword is mapped to %s instead of an error" % [show_value(b) for b in bad], F.fns[mod.fromstr_impls[t]]["sp"])
+            # near misses: proper prefixes / suffixes of keywords and keywords with junk attached are outside the set
+            kws = set()
+            for v in vals:
+                rs, _ = roundtrip.render_value(F, mod, v)
+                for ctl, r in rs:
+                    if ctl == OK and normalize(r)[0] == "sstr" and symstr.is_concrete(normalize(r)[1]):
+                        kws.add(symstr.concrete(normalize(r)[1]))
+            cands = set()
+            for kw in kws:
+                for i in range(1, len(kw)):
+                    cands.add(kw[:i])
+                    cands.add(kw[i:])
+                cands.add(kw + "x")
+                cands.add("x" + kw)
+                cands.add(kw + " ")
+            cands -= kws
+            cands -= {c for c in cands if c.lower() in {k.lower() for k in kws}}
+            for cand in sorted(cands):
+                parses, _ = roundtrip.parse_value(F, mod, t, symstr.lit(cand))
+                bad = [r for ctl, r in parses if not (ctl == OK and r[0] == "enum" and r[1] == ERRV)]
+                C.ob("C18/reject-near-miss", "%s :: %r" % (t, cand), not bad and parses, "%r is not a keyword of the type but parses to %s" % (cand, [show_value(b) for b in bad]), F.fns[mod.fromstr_impls[t]]["sp"])
             # distinct variants print distinct keywords (bijection)
             texts = {}
             for v in vals:
